@@ -120,23 +120,15 @@ def j_tokens(v):
 
 
 def vers_class(v):
-    """what the PROPERTY says about a versions body (not what the code does with it):
-       capable / incapable (+ ':unhashable-can-dilate-entry' / ':can-dilate-not-iterable' for the two input
-       families on which the current tree raises inside _find_shared_versions) / unspecified"""
+    """what the PROPERTY says about a versions body (not what the code does with it): capable / incapable /
+       unspecified.  A peer can dilate with us iff its `can-dilate` is a list naming one of our versions; whatever
+       else sits there (numbers, booleans, null, nested lists / dicts, a bare string, a dict, nothing) it cannot."""
     if not isinstance(v, dict):
         return "unspecified:versions-not-a-dict"     # Boss never hands such a body over (bytes_to_dict asserts a dict)
-    if "can-dilate" not in v:
-        return "incapable"
-    c = v["can-dilate"]
-    if isinstance(c, dict):
-        return "unspecified:can-dilate-a-dict"
-    if isinstance(c, list):
-        has = any(isinstance(x, str) and x in DILATION_VERSIONS for x in c)
-        unh = any(isinstance(x, (list, dict)) for x in c)
-        return ("capable" if has else "incapable") + (":unhashable-can-dilate-entry" if unh else "")
-    if isinstance(c, str):
-        return "incapable"                              # a bare string is not a list of versions
-    return "incapable:can-dilate-not-iterable"          # number / boolean / null
+    c = v.get("can-dilate", [])
+    if isinstance(c, list) and any(isinstance(x, str) and x in DILATION_VERSIONS for x in c):
+        return "capable"
+    return "incapable"
 
 
 # ---------------------------------------------------------------------------
@@ -811,7 +803,6 @@ def oracle(r):
     if len(vops) == 1:
         vv = vers_value(vops[0])
         cls = vers_class(vv)
-        family = cls.split(":", 1)[1] if ":" in cls else ""
         raised = None
         seen_versions = False
         for (op, tok, ev, err, summ, snap) in r.steps:
@@ -823,10 +814,10 @@ def oracle(r):
                 raised = (op, err)
         if not cls.startswith("unspecified"):
             if raised is not None:
-                v.append(("versions-raise" + (":" + family if family else ""),
+                v.append(("versions-raise",
                           f"peer versions {vv!r}: {raised[0][0]} raised {raised[1]} (nothing is reported to connect() callers; "
                           f"through Boss the wormhole dies with that error)"))
-            if dilated and completed and not (raised is not None and family):
+            if dilated and completed:
                 if cls.startswith("incapable"):
                     for i, res in enumerate(r.final["waiters"]):
                         if res != "err:OldPeerCannotDilateError":
